@@ -2,7 +2,7 @@
     Only statements; proofs are in Proofs/DumpProofs.v.  Model: Model/Dump.v. *)
 From Coq Require Import String QArith Permutation Sorted.
 From Coq Require Import List.
-From Cooler Require Import Model.Dump Proofs.PixelsProofs Proofs.DumpProofs.
+From Cooler Require Import Model.Dump Proofs.PixelsProofs Proofs.DumpProofs Proofs.DumpSpansProofs.
 Open Scope Z_scope.
 
 (** dump_eq_query (direct engine): for every option setting, every row-sorted stored table and EVERY admissible
@@ -77,3 +77,219 @@ Print Assumptions C16_read_fields_old_refuted.
 Theorem C16_parse_print_Z : forall z, parse_Z (print_Z z) = Some z.
 Proof. exact parse_print_Z. Qed.
 Print Assumptions C16_parse_print_Z.
+
+(** dump_eq_query (fill-lower engine, -f on a symmetric-upper cooler), membership: for every upper-triangular stored
+    table, every window and every admissible chunking of every sub-box of the engine's plan, a record is produced iff
+    it belongs to the symmetric completion and lies inside the window; the engine never reaches "This shouldn't happen" *)
+Theorem C16_dump_eq_query_fill_in : forall px i0 i1 j0 j1 cuts q,
+  Upper px -> i0 <= i1 -> j0 <= j1 -> PlanAdmissible px (i0, i1, j0, j1) cuts ->
+  match fill_chunks px (i0, i1, j0, j1) cuts with
+  | Some chunks => In q (concat chunks) <-> (InSymm px q /\ i0 <= row q < i1 /\ j0 <= col q < j1)
+  | None => False
+  end.
+Proof. exact fill_chunks_in. Qed.
+Print Assumptions C16_dump_eq_query_fill_in.
+
+(** the text for given chunks: annotator and projection are record-wise, so the text depends on the chunk list only
+    through its concatenation and through whether there is a chunk at all (header: finding D18) *)
+Theorem C16_dump_of_chunks : forall c o cuts chunks,
+  engine_chunks c o cuts = Some chunks ->
+  dump_pixels c o cuts =
+    if o_balanced o && no_weights c then None
+    else match chunks with
+         | [] => Some []
+         | _ :: _ =>
+             match annot_chunk c o (concat chunks) with
+             | None => None
+             | Some rows =>
+                 match o_header o, header_of c o with
+                 | true, Some h => Some (Header h :: body_of rows)
+                 | _, _ => Some (body_of rows)
+                 end
+             end
+         end.
+Proof. exact dump_of_chunks. Qed.
+Print Assumptions C16_dump_of_chunks.
+
+(** option lemmas, each for EVERY setting of the other options *)
+Theorem C16_one_based_ids_effect : forall c o p,
+  annot_row c (with_ids1 o true) p
+  = option_map (bump ["bin1_id"; "bin2_id"]%string) (annot_row c (with_ids1 o false) p).
+Proof. exact one_based_ids_effect. Qed.
+Print Assumptions C16_one_based_ids_effect.
+
+Theorem C16_one_based_starts_effect : forall c o p,
+  annot_row c (with_starts1 o true) p
+  = option_map (bump ["start1"; "start2"]%string) (annot_row c (with_starts1 o false) p).
+Proof. exact one_based_starts_effect. Qed.
+Print Assumptions C16_one_based_starts_effect.
+
+(** what [bump] does: the named columns' integer cells + 1, every other cell and the column names/order unchanged *)
+Theorem C16_bump_spec : forall names r n,
+  assoc n (bump names r) = option_map (fun v => if mem_str n names then inc_cell v else v) (assoc n r)
+  /\ map fst (bump names r) = map fst r.
+Proof. intros names r n. split; [apply assoc_bump|apply bump_names]. Qed.
+Print Assumptions C16_bump_spec.
+
+Theorem C16_columns_effect : forall c o cols p,
+  annot_row c (with_columns o (Some cols)) p
+  = match annot_row c (with_columns o None) p with Some r => project cols r | None => None end.
+Proof. exact columns_effect. Qed.
+Print Assumptions C16_columns_effect.
+
+Theorem C16_project_spec : forall cols r r',
+  project cols r = Some r' -> map fst r' = cols /\ forall n, In n cols -> assoc n r' = assoc n r.
+Proof. exact project_spec. Qed.
+Print Assumptions C16_project_spec.
+
+Theorem C16_join_effect : forall c o p,
+  o_join o = true -> o_annot o = None -> o_columns o = None ->
+  annot_row c o p =
+    Some (let d := if o_starts1 o then 1 else 0 in
+          let b1 := bin_at c (row p) in let b2 := bin_at c (col p) in
+          [("chrom1", CS (chrom_name c b1)); ("start1", CZ (bstart b1 + d)); ("end1", CZ (bend b1));
+           ("chrom2", CS (chrom_name c b2)); ("start2", CZ (bstart b2 + d)); ("end2", CZ (bend b2));
+           ("count", CZ (val p))]%string
+          ++ (if o_balanced o then [("balanced"%string, CQ (balanced_value c p))] else [])).
+Proof. exact join_effect. Qed.
+Print Assumptions C16_join_effect.
+
+Theorem C16_plain_effect : forall c o p,
+  o_join o = false -> o_annot o = None -> o_columns o = None ->
+  annot_row c o p =
+    Some (let d := if o_ids1 o then 1 else 0 in
+          [("bin1_id", CZ (row p + d)); ("bin2_id", CZ (col p + d)); ("count", CZ (val p))]%string
+          ++ (if o_balanced o then [("balanced"%string, CQ (balanced_value c p))] else [])).
+Proof. exact plain_effect. Qed.
+Print Assumptions C16_plain_effect.
+
+(** load_dump_roundtrip, COO *)
+Theorem C16_load_dump_roundtrip_coo : forall ob t chunk px,
+  SSorted px -> tril_harmless t px ->
+  load_schema false [] = Some coo_schema /\
+  load_coo coo_schema "count" ob t chunk (coo_text ob px) = Some px.
+Proof. intros ob t chunk px Hs Ht. split; [reflexivity|now apply load_dump_roundtrip_coo]. Qed.
+Print Assumptions C16_load_dump_roundtrip_coo.
+
+(** dump_eq_query (fill-lower engine), full strength: for every upper-triangular duplicate-free row-sorted stored table
+    (every symmetric-upper cooler), every window and EVERY admissible chunking, the concatenated chunks are a
+    rearrangement of the symmetric completion inside the window, each record exactly once *)
+Theorem C16_dump_eq_query_fill_perm : forall px i0 i1 j0 j1 cuts,
+  Upper px -> NoDup px -> RowSorted px -> i0 <= i1 -> j0 <= j1 -> PlanAdmissible px (i0, i1, j0, j1) cuts ->
+  match fill_chunks px (i0, i1, j0, j1) cuts with
+  | Some chunks => Permutation (concat chunks) (fill_spec px (i0, i1, j0, j1)) /\ NoDup (concat chunks)
+  | None => False
+  end.
+Proof. exact fill_chunks_perm. Qed.
+Print Assumptions C16_dump_eq_query_fill_perm.
+
+Theorem C16_fill_spec_is_symm_completion : forall px i0 i1 j0 j1 q,
+  In q (fill_spec px (i0, i1, j0, j1)) <-> InSymm px q /\ i0 <= row q < i1 /\ j0 <= col q < j1.
+Proof. exact in_fill_spec. Qed.
+Print Assumptions C16_fill_spec_is_symm_completion.
+
+(** the chunking the correspondence run evaluates the model with (CSRReader.get_spans for chunksize >= nnz: one span from
+    the first row of the box to the first row at which the offsets stop growing) satisfies the hypothesis of the theorems,
+    and yields a chunk exactly when a stored pixel lies in the row range of a non-degenerate box (cf. finding D18) *)
+Theorem C16_edges1_admissible : forall px i0 i1 j0 j1,
+  i0 <= i1 -> AdmissibleCuts px (i0, i1, j0, j1) (edges1 px (i0, i1, j0, j1)).
+Proof. exact edges1_admissible. Qed.
+Print Assumptions C16_edges1_admissible.
+
+Theorem C16_edges1_has_span : forall px i0 i1 j0 j1,
+  i0 <= i1 ->
+  (spans_of (edges1 px (i0, i1, j0, j1)) <> [] <->
+   degenerate (i0, i1, j0, j1) = false /\ exists p, In p px /\ i0 <= row p < i1).
+Proof. exact edges1_has_span. Qed.
+Print Assumptions C16_edges1_has_span.
+
+Theorem C16_dump1_eq_query_direct : forall c o,
+  o_fill o && d_symm c = false -> RowSorted (d_px c) ->
+  (let '(i0, i1, _, _) := bbox_of c o in i0 <= i1) ->
+  dump1 c o =
+    if o_balanced o && no_weights c then None
+    else match spans_of (edges1 (d_px c) (bbox_of c o)) with
+         | [] => Some []
+         | _ :: _ =>
+             match annot_chunk c o (window_select (d_px c) (bbox_of c o)) with
+             | None => None
+             | Some rows =>
+                 match o_header o, header_of c o with
+                 | true, Some h => Some (Header h :: body_of rows)
+                 | _, _ => Some (body_of rows)
+                 end
+             end
+         end.
+Proof. exact dump1_eq_query_direct. Qed.
+Print Assumptions C16_dump1_eq_query_direct.
+
+(** load_dump_roundtrip, BG2: `dump --join [--one-based-starts]` re-imported with `load -f bg2 [--one-based]` over the
+    same bin table (any table passing the executable check [bins_ok_b]: distinct names, non-empty bins listed by
+    (chromosome, start) without overlap inside a chromosome — every valid tiling), any chunk size *)
+Theorem C16_load_dump_roundtrip_bg2 : forall bins names ob t chunk px,
+  bins_ok_b bins names = true -> InRange bins px -> SSorted px -> tril_harmless t px ->
+  load_schema true [] = Some bg2_schema /\
+  load_bg2 bins names bg2_schema "count" ob t chunk (bg2_text bins names ob px) = Some px.
+Proof.
+  intros bins names ob t chunk px Hb Hr Hs Ht. split; [reflexivity|].
+  apply load_dump_roundtrip_bg2; try assumption. now apply bins_ok_b_sound.
+Qed.
+Print Assumptions C16_load_dump_roundtrip_bg2.
+
+(** the canonical aggregate of distinct sorted records is itself; a chunk holding a pixel twice is refused *)
+Theorem C16_load_pixels_roundtrip : forall ob t chunk px,
+  SSorted px -> tril_harmless t px -> load_pixels ob t chunk (map (shift_ids ob) px) = Some px.
+Proof. exact load_pixels_roundtrip. Qed.
+Print Assumptions C16_load_pixels_roundtrip.
+
+(* ---------------------------------------------------------------- non-vacuity *)
+Definition ex_cool : dcooler :=
+  {| d_bins := [(0,0,10);(0,10,20);(0,20,25);(1,0,10);(1,10,17)]; d_names := ["a";"b"]%string;
+     d_weight := Some [Some (1#2)%Q; None; Some (5#4)%Q; Some (2#1)%Q; Some (3#4)%Q];
+     d_px := [((0,0),3);((0,3),1);((1,1),4);((2,2),1);((2,4),5);((4,4),9)]; d_symm := true |}.
+Definition ex_opts (fill : bool) (r : option (range * option range)) : dopts :=
+  {| o_range := r; o_fill := fill; o_balanced := true; o_join := true; o_annot := None; o_ids1 := true;
+     o_starts1 := true; o_columns := Some ["chrom1"; "start2"; "balanced"]%string; o_header := true |}.
+
+(** the hypotheses of the theorems hold of a concrete non-trivial cooler, and the dump is non-trivial *)
+Example ex_C16_hypotheses :
+  ssorted_b (d_px ex_cool) = true /\ upper_b (d_px ex_cool) = true /\
+  bins_ok_b (d_bins ex_cool) (d_names ex_cool) = true /\
+  inrange_b 5 (d_px ex_cool) = true.
+Proof. vm_compute. repeat split; reflexivity. Qed.
+
+Example ex_C16_dump_direct :
+  dump1 ex_cool (ex_opts false (Some ((0, 3), Some (2, 5)))) =
+  Some [Header ["chrom1"; "start2"; "balanced"]%string;
+        Data [CS "a"; CZ 1; CQ (Some ((1#2) * (2#1) * inject_Z 1)%Q)];
+        Data [CS "a"; CZ 21; CQ (Some ((5#4) * (5#4) * inject_Z 1)%Q)];
+        Data [CS "a"; CZ 11; CQ (Some ((5#4) * (3#4) * inject_Z 5)%Q)]].
+Proof. vm_compute. reflexivity. Qed.
+
+(** finding D18 in the model: header requested, the row range holds no pixel -> nothing at all is printed *)
+Example ex_C16_header_missing_D18 :
+  dump1 ex_cool (ex_opts false (Some ((3, 4), None))) = Some [].
+Proof. vm_compute. reflexivity. Qed.
+
+(** the fill-lower engine on a window below the diagonal: the mirrored records *)
+Example ex_C16_fill_lower :
+  option_map (@concat pixel) (fill_chunks (d_px ex_cool) (3, 5, 0, 3) (edges1 (d_px ex_cool)))
+  = Some [((3,0),1); ((4,2),5)].
+Proof. vm_compute. reflexivity. Qed.
+
+Example ex_C16_roundtrips :
+  load_coo coo_schema "count" true Reflect 2%nat (coo_text true (d_px ex_cool)) = Some (d_px ex_cool) /\
+  load_bg2 (d_bins ex_cool) (d_names ex_cool) bg2_schema "count" true Reflect 4%nat
+           (bg2_text (d_bins ex_cool) (d_names ex_cool) true (d_px ex_cool)) = Some (d_px ex_cool).
+Proof. vm_compute. split; reflexivity. Qed.
+
+(** D8 regression: `cload pairs -c1 4 -p1 3 -c2 2 -p2 1` and `load --field foo=5 --field count=3` *)
+Example ex_C16_D8 :
+  (match cload_schema 4 3 2 1 [] with
+   | Some s => read_fields (s_in s) (s_num s) ["7"; "b"; "3"; "a"]%string
+   | None => None end)
+  = Some [("pos2", "7"); ("chrom2", "b"); ("pos1", "3"); ("chrom1", "a")]%string /\
+  (match load_schema false [parse_field_param "foo=5" true false; parse_field_param "count=3" true false] with
+   | Some s => coo_record s "count" ["0"; "1"; "42"; "x"; "9"]%string
+   | None => None end) = Some ((0, 1), 42).
+Proof. vm_compute. split; reflexivity. Qed.
